@@ -237,8 +237,8 @@ partial def stringIndex : PExp → Bool
   | .un _ e => stringIndex e
   | _ => false
 
-/-- a compound variable whose index is a VARIABLE starting with an underscore (`x_{_i}`): it is printed bare, `x__i`,
-which the grammar reads as the literal name fragment `_i` (`underscore_literal`), not as the variable -/
+/-- (repaired in 7719594, kept as regression detector) a compound variable whose index is a VARIABLE starting with an
+underscore (`x_{_i}`): it was printed bare, `x__i`, which the grammar reads as the literal name fragment `_i` (`underscore_literal`), not as the variable -/
 partial def underscoreVarIndex : PExp → Bool
   | .cvar _ as => as.any (fun | .var n => n.startsWith "_" | e => underscoreVarIndex e)
   | .access _ as | .call _ as | .block _ as => as.any underscoreVarIndex
